@@ -56,6 +56,16 @@ type c07Case struct {
 	RemoteHold int     `json:"remote_hold"` // hold time in the peer's valid OPEN
 	PfxLimit   int     `json:"pfx_limit"`   // max-prefixes for IPv4 unicast (0 = none)
 	Events     []c07Ev `json:"events"`
+	// WideAS: the local AS (and with IBGP the peer's) needs four octets: the OPEN headers carry AS_TRANS and the
+	// real number is in the capability
+	WideAS bool `json:"wide_as,omitempty"`
+}
+
+func (c *c07Case) localAS() uint32 {
+	if c.WideAS {
+		return 4200000000
+	}
+	return c07LocalAS
 }
 
 func drawC07(t *rapid.T) c07Case {
@@ -65,6 +75,7 @@ func drawC07(t *rapid.T) c07Case {
 		RemoteHold: rapid.SampledFrom([]int{9, 3, 30, 180, 0, 12}).Draw(t, "remote_hold"),
 	}
 	c.PfxLimit = rapid.SampledFrom([]int{0, 0, 1, 2}).Draw(t, "pfx_limit")
+	c.WideAS = rapid.IntRange(0, 3).Draw(t, "wide_as") == 0
 	n := rapid.IntRange(1, 25).Draw(t, "n")
 	// weights: make handshakes likely
 	pool := []int{evConnect, evConnect, evConnect, evOpen, evOpen, evOpen, evKeepalive, evKeepalive, evKeepalive, evUpdate, evRouteRefresh,
@@ -756,7 +767,7 @@ func c07DescribeExp(e c07Expect) string {
 func runC07(t *testing.T) func(c c07Case, st *verifkit.Stats) *verifkit.Failure {
 	return func(c c07Case, st *verifkit.Stats) *verifkit.Failure {
 		return simRun(t, func() *verifkit.Failure {
-			n, err := simStart(&api.Global{Asn: c07LocalAS, RouterId: c07LocalID})
+			n, err := simStart(&api.Global{Asn: c.localAS(), RouterId: c07LocalID})
 			if err != nil {
 				return verifkit.Failf("start", "%v", err)
 			}
@@ -764,7 +775,7 @@ func runC07(t *testing.T) func(c c07Case, st *verifkit.Stats) *verifkit.Failure 
 			r := &c07Run{c: &c, n: n, st: st, ctx: context.Background()}
 			r.peer = &simPeerDef{Addr: "10.0.0.1", AS: 65001, ID: "10.0.0.1"}
 			if c.IBGP {
-				r.peer.AS = c07LocalAS
+				r.peer.AS = c.localAS()
 			}
 			ka := uint64(c.LocalHold / 3)
 			err = n.s.AddPeer(r.ctx, &api.AddPeerRequest{Peer: &api.Peer{
